@@ -693,6 +693,33 @@ def r8_setfh_applied(L, repo):
              "enable_fh(%d, %d, ...)" % (hsn, maio), [c_[1][:2] for c_ in applied] or "enable_fh is not called (status %r)" % (f.ret,),
              len(applied) == 1 and f.ret == 0, None)
     L.floor("C02.R8", "single-difference SETFH requests folded", n, 5)
+    # the same question one level down: enable_fh() itself must install what it is given (a "nothing to reconfigure"
+    # shortcut inside it is judged by the same single-difference requests)
+    tci = repo.need_class("transceiver", "Transceiver")
+    c_e, efh = repo.find_method(tci, "enable_fh")
+    if efh is None:
+        raise AnalysisError("Transceiver.enable_fh vanished")
+    FT_ = rel("transceiver")
+    m = 0
+    for what, (hsn, maio, ma) in variants.items():
+        if what == "the same parameters":
+            continue
+        ma_hz = [(r * 1000, t * 1000) for r, t in ma]
+        e = Ev(repo, c_e.mod, env={"self.fh": installed, "self.running": False}, self_cls=tci)
+        e.ignore_calls = ("log.", "logging.")
+        e.model_objects = True
+        try:
+            e.call_func(efh, c_e.mod, e._bindargs(efh, ["<self>", hsn, maio, ma_hz], {}), self_cls=tci, writeback=True)
+        except (Unknown, Raised) as ex:
+            raise AnalysisError("Transceiver.enable_fh does not fold with modelled objects: %s" % ex)
+        got = e.env.get("self.fh")
+        desc = None
+        if isinstance(got, Instance) and got.attrs is not None:
+            desc = (got.attrs.get("hsn"), got.attrs.get("maio"), [tuple(x) for x in got.attrs.get("ma", [])] if isinstance(got.attrs.get("ma"), (list, tuple)) else got.attrs.get("ma"))
+        m += 1
+        L.ob("C02.R8", FT_, "Transceiver.enable_fh", "enable_fh() with parameters that differ from the installed ones in %s leaves the NEW parameters installed" % what,
+             (hsn, maio, ma_hz), desc, desc == (hsn, maio, ma_hz), efh.lineno)
+    L.floor("C02.R8", "single-difference enable_fh() calls folded", m, 4)
 
 
 def run(L, tier):
